@@ -38,6 +38,8 @@ def dispatch (line : String) : String :=
   | "matcher" :: args => Driver.RenderD.handleMatcher args
   | "header" :: args => Driver.RenderD.handleHeader args
   | "snippet" :: args => Driver.RenderD.handleSnippet args
+  | "indicator" :: args => Driver.RenderD.handleIndicator args
+  | "jsonenc" :: args => Driver.RenderD.handleJsonEnc args
   | "sanitize" :: args => Driver.RenderD.handleSanitize args
   | "exproffsets" :: args => Driver.RenderD.handleExprOffsets args
   | "proctrace" :: args => Driver.ProcD.handle args
